@@ -93,7 +93,9 @@ func r16_1(c *Ctx, rule string) {
 		ik, _, _ := c.errValueOf(f.inc)
 		ok, hit, und := c.Precedes(f.copy, f.inc, map[string]bool{"(" + ik + "==nil)": true},
 			func(in ssa.Instruction) bool { return in == ssa.Instruction(f.exc) },
-			func(in ssa.Instruction) bool { return in == ssa.Instruction(f.cdCall) || c.P.IsCallTo(in, "copy.copyFile") })
+			func(in ssa.Instruction) bool {
+				return in == ssa.Instruction(f.cdCall) || c.P.IsCallTo(in, "copy.copyFile")
+			})
 		switch {
 		case und:
 			c.R.Undecided(rule, c.name(f.copy)+"/exclude-evaluated-for-every-entry", c.pos(f.exc), "state limit")
@@ -270,7 +272,7 @@ func r16_4(c *Ctx, rule string) {
 	}
 	paramNamed := func(fn *ssa.Function, sub string) *ssa.Parameter {
 		for _, p := range fn.Params {
-			if strings.Contains(strings.ToLower(p.Name()), sub) && strings.HasSuffix(p.Type().String(), "MatchInfo") {
+			if strings.Contains(strings.ToLower(c.P.ParamName(p)), sub) && strings.HasSuffix(p.Type().String(), "MatchInfo") {
 				return p
 			}
 		}
